@@ -69,7 +69,8 @@ var c16Results = []rdesc{
 
 func (c16) Cases(tier string) int {
 	if tier == "thorough" {
-		return 60000
+		// 594 one-parameter + 2 * 13068 two-parameter / one-parameter-plus-variadic signatures, then PRNG samples
+		return 594 + 2*13068 + 40000
 	}
 	return 2600
 }
@@ -108,7 +109,10 @@ func (c16) Thresholds(tier string) map[string]int64 {
 }
 
 func (c16) Exhaustive(tier string) (bool, string) {
-	return true, "cases 0..(22*20+22*7-1) enumerate every one-parameter function signature {22 parameter types} x {20 result lists} and every one-parameter command signature {22} x {7 result lists}; all other signatures (0-3 parameters, variadic tails, 0-2 results) are PRNG-sampled"
+	if tier == "thorough" {
+		return true, "every one-parameter signature {22 parameter types} x {20 function result lists, 7 command result lists}, every two-parameter signature {22 x 22} x the same result lists, and every one-parameter-plus-variadic-tail signature {22 x 22} x the same result lists are enumerated completely (26730 signatures); signatures with three parameters or two results beyond these are PRNG-sampled"
+	}
+	return true, "cases 0..593 enumerate every one-parameter function signature {22 parameter types} x {20 result lists} and every one-parameter command signature {22} x {7 result lists}; all other signatures (0-3 parameters, variadic tails, 0-2 results) are PRNG-sampled"
 }
 
 func (c16) Rule() string {
@@ -243,6 +247,33 @@ func (c16) pickSig(c *core.Ctx) sig {
 	if c.Idx < nf+nc {
 		i := c.Idx - nf
 		return sig{params: []tdesc{c16Params[i/len(c16CommandResults)]}, results: c16CommandResults[i%len(c16CommandResults)], command: true}
+	}
+	if c.Thorough() {
+		// thorough: every two-parameter signature and every (one parameter + variadic tail) signature as well
+		np := len(c16Params)
+		i := c.Idx - nf - nc
+		twoF, twoC := np*np*len(fr), np*np*len(c16CommandResults)
+		switch {
+		case i < twoF:
+			return sig{params: []tdesc{c16Params[i/len(fr)/np], c16Params[i/len(fr)%np]}, results: fr[i%len(fr)]}
+		case i < twoF+twoC:
+			i -= twoF
+			k := len(c16CommandResults)
+			return sig{params: []tdesc{c16Params[i/k/np], c16Params[i/k%np]}, results: c16CommandResults[i%k], command: true}
+		case i < 2*(twoF+twoC):
+			// the same lists with the second type as a variadic tail
+			i -= twoF + twoC
+			cmd := i >= twoF
+			if cmd {
+				i -= twoF
+			}
+			lists, k := fr, len(fr)
+			if cmd {
+				lists, k = c16CommandResults, len(c16CommandResults)
+			}
+			v := c16Params[i/k%np]
+			return sig{params: []tdesc{c16Params[i/k/np]}, variadic: &v, results: lists[i%k], command: cmd}
+		}
 	}
 	var s sig
 	s.command = r.Bool()
